@@ -396,6 +396,26 @@ def predicates(ctx: Ctx) -> None:
         if not close(e0, e1, 1e-9, 1e-9):
             ctx.fail("energy-not-invariant:LennardJones", f"LJ energy {e0} changed to {e1} under a rigid motion + "
                      f"permutation of {n} atoms", {"x": pts.flatten().tolist(), "perm": perm})
+        # a cluster far from the origin: grid points (2^-20) translated by +-2^k per axis are exact doubles, the
+        # inter-atomic differences are then bit-identical, so energy AND gradient may differ only by the rounding of
+        # the pair terms themselves
+        grid = np.round(pts * 2.0 ** 20) / 2.0 ** 20
+        if min(np.linalg.norm(grid[i] - grid[j]) for i in range(n) for j in range(i + 1, n)) > 0.6:
+            big = np.array([rng.choice([-1.0, 1.0]) * 2.0 ** rng.choice([6, 13, 20]) for _ in range(3)])
+            far = grid + big
+            if np.array_equal(far - big, grid):
+                f0, g0 = lj.function_gradient(grid.flatten().copy())
+                f1, g1 = lj.function_gradient(far.flatten().copy())
+                r6 = [1.0 / float(np.sum((grid[i] - grid[j]) ** 2)) ** 3 for i in range(n) for j in range(i + 1, n)]
+                bound = 1000 * 2.3e-16 * sum(4 * (q * q + q) for q in r6)
+                gbound = 1000 * 2.3e-16 * sum(24 * (2 * q * q + q) * 2 for q in r6)
+                ctx.stats.case({"pred": "lj-far-from-origin", "n": n, "offset": float(np.max(np.abs(big)))}, True)
+                if abs(f1 - f0) > bound or float(np.max(np.abs(np.asarray(g1) - np.asarray(g0)))) > gbound or \
+                        abs(lj.function(far.flatten().copy()) - f0) > bound:
+                    ctx.fail("energy-not-invariant:LennardJones:far-from-origin",
+                             f"{n}-atom cluster translated by {big.tolist()} (exactly representable): energy {f0!r} -> {f1!r}, "
+                             f"largest gradient change {float(np.max(np.abs(np.asarray(g1) - np.asarray(g0)))):.3e}",
+                             {"x": grid.flatten().tolist(), "shift": big.tolist()})
         species = [rng.choice(["Au", "Ag"]) for _ in range(n)]
         gp = BinaryGupta(species)
         like = [i for i in range(n)]
@@ -413,6 +433,7 @@ def predicates(ctx: Ctx) -> None:
             ctx.fail("energy-not-invariant:BinaryGupta", f"Gupta energy {g0} changed to {g1} under a rigid motion + "
                      f"exchange of like atoms", {"x": (pts * 2.6).flatten().tolist(), "species": species, "perm": perm2})
     mmff_symmetry(ctx)
+    cluster_classifier(ctx)
     # 4. classifiers vs the spectrum (dense random symmetric Hessians)
     for _ in range(ctx.scale(60, 400) * deep):
         n = rng.randrange(2, 6)
@@ -436,6 +457,46 @@ def predicates(ctx: Ctx) -> None:
             ctx.fail("classifier-disagrees:minimum", f"check_valid_minimum = {pot.check_valid_minimum(co)} for spectrum {eigs}", {"eigs": eigs})
         if pot.check_valid_ts(co) != (neg == 1):
             ctx.fail("classifier-disagrees:ts", f"check_valid_ts = {pot.check_valid_ts(co)} for spectrum {eigs}", {"eigs": eigs})
+
+
+def cluster_classifier(ctx: Ctx) -> None:
+    """real cluster minima (Lennard-Jones and Gupta, relaxed here): when the library's own Hessian has an unambiguous
+    spectrum — six modes below 1e-3 in magnitude (translations and rotations), all others above 1e-2 — the point is a
+    minimum and not a transition state, and the classifiers of an atomistic surface must say so"""
+    import warnings
+    from topsearch.minimisation import lbfgs
+    from topsearch.potentials.atomic import BinaryGupta, LennardJones
+    rng = ctx.rng
+    for it in range(ctx.scale(4, 16)):
+        n = rng.choice([4, 5, 6])
+        if it % 2 == 0:
+            pot, scale, name = LennardJones(), 1.12, "LennardJones"
+        else:
+            pot, scale, name = BinaryGupta([rng.choice(["Au", "Ag"]) for _ in range(n)]), 2.8, "BinaryGupta"
+        base = np.array([[0, 0, 0], [1, 0, 0], [0.5, 0.87, 0], [0.5, 0.29, 0.82], [0.5, 0.29, -0.82], [1.3, 0.9, 0.7]],
+                        dtype=float)[:n] * scale
+        x0 = (base + np.array([[rng.uniform(-0.05, 0.05) for _ in range(3)] for _ in range(n)])).flatten()
+        with warnings.catch_warnings(), np.errstate(all="ignore"):
+            warnings.simplefilter("ignore")
+            x, e, d = lbfgs.minimise(func_grad=pot.function_gradient, initial_position=x0, bounds=[(-50.0, 50.0)] * (3 * n),
+                                     conv_crit=1e-7)
+            H = pot.hessian(np.array(x, dtype=float).copy())
+        w = np.linalg.eigvalsh((H + H.T) / 2)
+        small = [v for v in w if abs(v) < 1e-3]
+        if d.get("warnflag") != 0 or len(small) != 6 or any(v < 1e-2 for v in w if abs(v) >= 1e-3):
+            ctx.stats.near_ties += 1          # not an unambiguous minimum (flat mode, unconverged): no verdict
+            continue
+        co = _Coords(3 * n, False)
+        co.position = np.array(x, dtype=float)
+        vm, vt = bool(pot.check_valid_minimum(co)), bool(pot.check_valid_ts(co))
+        ctx.stats.case({"pred": "cluster-classifier", "surface": name, "n": n}, True)
+        if not vm or vt:
+            ctx.fail(f"classifier-disagrees:cluster-minimum:{name}",
+                     f"relaxed {n}-atom {name} cluster: Hessian spectrum has 6 modes below 1e-3 and all others above 1e-2 "
+                     f"(lowest {w[:7].round(6).tolist()}), but check_valid_minimum = {vm}, check_valid_ts = {vt} "
+                     f"(atomistic flag of the surface: {getattr(pot, 'atomistic', None)})",
+                     {"surface": name, "x": np.asarray(x).tolist(), "species": getattr(pot, "species", None)})
+            return
 
 
 def mmff_symmetry(ctx: Ctx) -> None:
